@@ -78,6 +78,7 @@ Route(p, h, result) ==
 (*   "good_inst"     instantiate-response envelope                          *)
 (*   "empty_env"     well-formed execute envelope that carries no data      *)
 (*   "bad_env"       bytes that are not an envelope                         *)
+(*   "bare_json"     JSON of the declared type without any envelope         *)
 (*   "bad_json"      execute envelope whose data is not JSON of the declared type *)
 (* outcome: "value" | "none" | "missing" | "decode_err" ; a set = documented nondeterminism *)
 Extract(mode, class) ==
@@ -89,12 +90,13 @@ Extract(mode, class) ==
               [] class = "good"      -> {"value"}
               [] class = "empty_env" -> IF mode = "opt" THEN {"none", "missing"} ELSE {"missing"}
               [] class = "bad_json"  -> {"decode_err"}
+              [] class = "bare_json" -> {"decode_err"}      \* typed modes decode the envelope first: data without one is undecodable
               [] class = "good_inst" -> {"decode_err", "missing", "none", "value"}   \* another envelope: not specified
               [] OTHER               -> {"decode_err"}
       [] mode \in {"inst", "instopt"} ->
             CASE class = "absent"    -> IF mode = "instopt" THEN {"none"} ELSE {"missing"}
               [] class = "good_inst" -> {"value"}
-              [] class = "bad_env"   -> {"decode_err"}
+              [] class \in {"bad_env", "bare_json"} -> {"decode_err"}
               [] OTHER               -> {"decode_err", "value"}                        \* another envelope: not specified
 HandlerRuns(x) == x \in {"value", "none", "nodata"}
 
